@@ -164,4 +164,121 @@ EncMessage(m) ==
      \o (IF IsSome(h.tms) THEN h.tms[1] ELSE <<>>)
      \o (IF IsSome(m.x) THEN LET x == m.x[1] IN <<MsinEnc(x.verb, x.mt), x.noar>> \o Pad(x.ap, 4) \o Pad(x.ct, 4) ELSE <<>>)
      \o pay
+\* ---------------------------------------------------------------- well-formedness (quantifier of C01 / C15, transcribed)
+\* "ids <= 4 bytes without NUL; names, units and strings without NUL; value variant and fixed-point data matching
+\*  the type info; name/unit presence matching the variable-info flag; verbose flag, argument count, extended-header
+\*  flag and payload length consistent with the payload; canonical codes for the enumerations; total length within
+\*  the 16-bit length field"
+NoNul(s) == \A i \in 1..Len(s) : s[i] # 0
+Text(s) == NoNul(s) /\ Valid(s)                       \* what a Rust String without NUL can hold
+IdOk(s) == Len(s) <= 4 /\ Text(s)
+NameOnlyKind(k) == k \in {"bool", "str", "raw"}
+ArgWellFormed(a) ==
+  /\ a.cod \in 0..7
+  /\ a.kind \in {"bool", "sint", "uint", "sfp", "ufp", "float", "str", "raw"}
+  /\ CASE a.kind = "bool" -> a.w = 0 /\ a.val[1] = "bool" /\ Len(a.val[2]) = 1
+       [] a.kind = "sint" -> a.w \in {8, 16, 32, 64, 128} /\ a.val[1] = "i" /\ Len(a.val[2]) = a.w \div 8
+       [] a.kind = "uint" -> a.w \in {8, 16, 32, 64, 128} /\ a.val[1] = "u" /\ Len(a.val[2]) = a.w \div 8
+       [] a.kind = "sfp"  -> a.w \in {32, 64} /\ a.val[1] = "i" /\ Len(a.val[2]) = a.w \div 8
+       [] a.kind = "ufp"  -> a.w \in {32, 64} /\ a.val[1] = "u" /\ Len(a.val[2]) = a.w \div 8
+       [] a.kind = "float" -> a.w \in {32, 64} /\ a.val[1] = "f" /\ Len(a.val[2]) = a.w \div 8
+       [] a.kind = "str"  -> a.w = 0 /\ a.val[1] = "str" /\ Text(a.val[2])
+       [] a.kind = "raw"  -> a.w = 0 /\ a.val[1] = "raw"
+  /\ IF a.kind \in {"sfp", "ufp"}
+     THEN IsSome(a.fp) /\ Len(a.fp[1].q) = 4 /\ Len(a.fp[1].off) = a.w \div 8
+     ELSE a.fp = None
+  /\ IsSome(a.name) = a.vari
+  /\ IsSome(a.unit) = (a.vari /\ ~NameOnlyKind(a.kind))
+  /\ (IsSome(a.name) => Text(a.name[1]))
+  /\ (IsSome(a.unit) => Text(a.unit[1]))
+MtCanonical(mt) == mt[1] \in 0..7 /\ mt[2] \in 0..15
+WellFormed(m) ==
+  LET h == m.h  p == m.p IN
+  /\ h.ver \in 0..7 /\ h.mcnt \in 0..255
+  /\ (IsSome(m.sh) => Len(m.sh[1].secs) = 4 /\ Len(m.sh[1].us) = 4 /\ IdOk(m.sh[1].ecu))
+  /\ (IsSome(h.ecu) => IdOk(h.ecu[1]))
+  /\ (IsSome(h.sid) => Len(h.sid[1]) = 4)
+  /\ (IsSome(h.tms) => Len(h.tms[1]) = 4)
+  /\ h.ueh = IsSome(m.x)
+  /\ (IsSome(m.x) => LET x == m.x[1] IN IdOk(x.ap) /\ IdOk(x.ct) /\ MtCanonical(x.mt) /\ x.noar \in 0..255)
+  /\ CASE p[1] = "v"   -> /\ h.ueh /\ m.x[1].verb /\ m.x[1].mt[1] # MSTP_NW /\ m.x[1].noar = Len(p[2])
+                          /\ \A i \in 1..Len(p[2]) : ArgWellFormed(p[2][i])
+       [] p[1] = "nw"  -> h.ueh /\ m.x[1].verb /\ m.x[1].mt[1] = MSTP_NW /\ m.x[1].noar = Len(p[2])
+       [] p[1] = "ctl" -> h.ueh /\ ~m.x[1].verb /\ m.x[1].mt[1] = MSTP_CTRL /\ p[2] \in 0..255
+       [] p[1] = "nv"  -> Len(p[2]) = 4 /\ (h.ueh => ~m.x[1].verb /\ m.x[1].mt[1] # MSTP_CTRL)
+  /\ h.plen = Len(EncPayload(p, h.be))
+  /\ HdrsLen(HtypEnc([ueh |-> h.ueh, be |-> h.be, weid |-> IsSome(h.ecu), wsid |-> IsSome(h.sid),
+                      wtms |-> IsSome(h.tms), ver |-> h.ver])) + h.plen <= 65535
+  \* every 16-bit length prefix must be able to hold its field
+  /\ (p[1] = "v" => \A i \in 1..Len(p[2]) :
+        LET a == p[2][i] IN
+        /\ (IsSome(a.name) => Len(a.name[1]) + 1 <= 65535)
+        /\ (IsSome(a.unit) => Len(a.unit[1]) + 1 <= 65535)
+        /\ (a.kind = "str" => Len(a.val[2]) + 1 <= 65535)
+        /\ (a.kind = "raw" => Len(a.val[2]) <= 65535))
+  /\ (p[1] = "nw" => \A i \in 1..Len(p[2]) : Len(p[2][i]) <= 65535)
+
+\* ---------------------------------------------------------------- lengths and validity (C15)
+ArgLen(a) == Len(EncArg(a, TRUE))                     \* = Len(EncArg(a, FALSE)): MC theorem ArgLenOrderFree
+ArgValid(a) == CASE a.kind = "bool"  -> a.val[1] = "bool"
+                 [] a.kind = "float" -> a.val[1] = "f" /\ Len(a.val[2]) = a.w \div 8
+                 [] OTHER -> TRUE
+DeclaredLen(b, sh) ==    \* length the bytes' own header declares (incl. storage header); 0 if too short to tell
+  LET o == IF sh THEN 16 ELSE 0 IN IF Len(b) < o + 4 THEN 0 ELSE o + U16(b, o + 3, TRUE)
+
+\* ---------------------------------------------------------------- the other slice-level entry points
+\* dlt_consume_msg: no resync, no payload inspection
+PrefixOfPattern(buf) == LET c == IF Len(buf) < 4 THEN Len(buf) ELSE 4 IN Sub(buf, 1, c) = Sub(Pattern, 1, c)
+ConsumeVerdict(buf) ==
+  IF buf = <<>> THEN [v |-> "none"]
+  ELSE IF ~PrefixOfPattern(buf) THEN Rej
+  ELSE IF Len(buf) < 16 THEN Inc
+  ELSE LET avail == Len(buf) - 16 IN
+       IF avail < 4 THEN Inc
+       ELSE LET htyp == buf[17]  std == StdLen(htyp)  LEN == U16(buf, 19, TRUE) IN
+            IF avail < std THEN Inc
+            ELSE IF HdrsLen(htyp) > LEN THEN Rej
+            ELSE IF avail < LEN THEN Inc
+            ELSE [v |-> "skipped", consumed |-> 16 + LEN]
+\* skip_storage_header
+SkipStorage(buf) == IF ~PrefixOfPattern(buf) THEN Rej ELSE IF Len(buf) < 16 THEN Inc ELSE [v |-> "skipped", consumed |-> 16]
+\* forward_to_next_storage_header
+Forward(buf) == LET k == FindPattern(buf) IN IF k = 0 THEN [v |-> "none"] ELSE [v |-> "found", dropped |-> k - 1]
+\* dlt_zero_terminated_string(buf, size)
+ZStr(buf, size) == IF Len(buf) < size THEN [v |-> "inc", miss |-> size - Len(buf)]
+                   ELSE [v |-> "ok", val |-> ZField(buf, 1, size), consumed |-> size]
+
+\* ---------------------------------------------------------------- construct_arguments (C13)
+\* types: sequence of [kind, w, cod, vari, trai]; data: payload after the message id; be: byte order.
+\* Result [v |-> "ok", args |-> ...] / [v |-> "err"] / [v |-> "any"] (a fixed-point type is outside the property).
+\* Named deviation: a string signal's value is the length-prefixed field verbatim (no NUL cut), and must be valid UTF-8.
+SigArg(t, val) == [kind |-> t.kind, w |-> t.w, cod |-> t.cod, vari |-> t.vari, trai |-> t.trai,
+                   name |-> None, unit |-> None, fp |-> None, val |-> val]
+RECURSIVE ConstructFrom(_, _, _, _, _)
+ConstructFrom(types, i, data, p, be) ==     \* p = next unread position; returns <<>> or <<args>>
+  IF i > Len(types) THEN Some(<<>>)
+  ELSE LET t == types[i]  hi == Len(data) IN
+  CASE t.kind \in {"str", "raw"} ->
+         IF ~Fits(p, 2, hi) THEN None
+         ELSE LET n == U16(data, p, be) IN
+              IF ~Fits(p + 2, n, hi) THEN None
+              ELSE LET f == Sub(data, p + 2, p + 1 + n) IN
+                   IF t.kind = "str" /\ ~Valid(f) THEN None
+                   ELSE LET r == ConstructFrom(types, i + 1, data, p + 2 + n, be) IN
+                        IF r = None THEN None
+                        ELSE Some(<<SigArg(t, <<(IF t.kind = "str" THEN "str" ELSE "raw"), f>>)>> \o r[1])
+    [] t.kind = "bool" ->
+         IF ~Fits(p, 1, hi) THEN None
+         ELSE LET r == ConstructFrom(types, i + 1, data, p + 1, be) IN
+              IF r = None THEN None ELSE Some(<<SigArg(t, <<"bool", <<data[p]>> >>)>> \o r[1])
+    [] t.kind \in {"sint", "uint", "float"} ->
+         LET n == t.w \div 8 IN
+         IF ~Fits(p, n, hi) THEN None
+         ELSE LET r == ConstructFrom(types, i + 1, data, p + n, be)
+                  tag == CASE t.kind = "sint" -> "i" [] t.kind = "uint" -> "u" [] OTHER -> "f" IN
+              IF r = None THEN None ELSE Some(<<SigArg(t, <<tag, Norm(Sub(data, p, p + n - 1), be)>>)>> \o r[1])
+ConstructArgs(types, data, be) ==
+  IF \E i \in 1..Len(types) : types[i].kind \in {"sfp", "ufp"} THEN [v |-> "any"]
+  ELSE LET r == ConstructFrom(types, 1, data, 1, be) IN
+       IF r = None THEN [v |-> "err"] ELSE [v |-> "ok", args |-> r[1]]
 =============================================================================
